@@ -123,6 +123,24 @@ func (e *Exec) RunFunction(fn *ssa.Function) (err error) {
 				return fmt.Errorf("out of subset: on-call clause %s:%s applies at no call in %s", oc.Callee, lbl, FuncName(fn))
 			}
 		}
+		for i, om := range c.OnMapUpdates {
+			lbl := om.Label
+			if lbl == "" {
+				lbl = fmt.Sprint(i + 1)
+			}
+			if e.clauseUsed["mapupd:"+om.Field+":"+lbl] == 0 {
+				return fmt.Errorf("out of subset: on-map-update clause %s:%s applies at no map update of %s", om.Field, lbl, FuncName(fn))
+			}
+		}
+		for i, om := range c.OnMapDeletes {
+			lbl := om.Label
+			if lbl == "" {
+				lbl = fmt.Sprint(i + 1)
+			}
+			if e.clauseUsed["mapdel:"+om.Field+":"+lbl] == 0 {
+				return fmt.Errorf("out of subset: on-map-delete clause %s:%s applies at no delete in %s", om.Field, lbl, FuncName(fn))
+			}
+		}
 		for _, ns := range c.NoStores {
 			if !e.noStoreHit[ns] {
 				// no store to the field on any explored path: discharged structurally
